@@ -318,6 +318,78 @@ impl Upstream {
 	}
 }
 
+/// Sources whose ids contain characters that mean something to the router: requests for *other*, non-existent
+/// sources and for coordinates without tile must still get a complete 404 / 400, the ordinary source its tiles.
+fn c05_odd_ids(ctx: &Arc<Ctx>, work: &Path, rt: &tokio::runtime::Runtime) {
+	let stored: Vec<Key> = vec![(3, 1, 2), (3, 2, 5)];
+	let tiles: TileMap = stored.iter().map(|k| (*k, content_of(*k))).collect();
+	let mut src = MemSource::new("m", tiles, TileFormat::PNG, TileCompression::Uncompressed);
+	let file = match write_container(rt, Cont::Versatiles, work, "oddid", &mut src) {
+		Ok(f) => f,
+		Err(e) => {
+			eprintln!("MACHINERY: cannot write the odd-id container: {e}");
+			std::process::exit(2);
+		}
+	};
+	for (gi, ids) in [vec!["plain", "berlin{2024}", "{region}"], vec!["plain", "x:y", "*"], vec!["plain", "{*rest}"], vec!["plain", "a{b", "c}d"]].into_iter().enumerate() {
+	let args: Vec<String> = ids.iter().map(|id| format!("[{id}]{file}")).collect();
+	let server = match Server::start(work, &args, &format!("c05oddids{gi}")) {
+		Ok(s) => s,
+		Err(e) => {
+			// a server that refuses such ids at start-up serves nothing wrongly
+			ctx.outcome(&format!("sources with ids {ids:?}: server does not start ({})", e.chars().take(60).collect::<String>()));
+			continue;
+		}
+	};
+	let mut cl = Client::connect(server.port).expect("connect");
+	let mut n = 0u64;
+	for round in 0..2 {
+		for (target, want) in [
+			("/tiles/plain/3/1/2", Some(200u16)),
+			("/tiles/plain/3/2/5", Some(200)),
+			("/tiles/plain/3/9/9", Some(404)),
+			("/tiles/nosuchsource/3/1/2", Some(404)),
+			("/tiles/nosuchsource/3/9/9", Some(404)),
+			("/tiles/nosuchsource/x/y/z", None),
+			("/tiles/berlin2023/3/1/2", Some(404)),
+			("/tiles/berlin/3/1/2", Some(404)),
+			("/tiles/region/3/1/2", Some(404)),
+			("/tiles/ab/3/1/2", Some(404)),
+			("/tiles/rest/3/1/2", Some(404)),
+			// the ids themselves, raw and percent-encoded: any complete response
+			("/tiles/berlin{2024}/3/1/2", None),
+			("/tiles/berlin%7B2024%7D/3/1/2", None),
+			("/tiles/%7Bregion%7D/3/1/2", None),
+			("/tiles/{region}/3/1/2", None),
+			("/tiles/x:y/3/1/2", None),
+			("/tiles/*/3/1/2", None),
+		] {
+			ctx.eval();
+			ctx.transition(1);
+			n += 1;
+			let case = json!({"mode": "ids with router syntax", "ids": ids, "target": target, "round": round});
+			match cl.request(target, &[]).unwrap_or_else(Reply::Dropped) {
+				Reply::Dropped(why) => {
+					ctx.violation("tile request is answered by a dropped connection (sources whose ids contain router syntax)", &format!("GET {target}: {why}"), case);
+					cl = Client::connect(server.port).expect("connect");
+				}
+				Reply::Response(r) => {
+					if let Some(w) = want {
+						if r.status != w && !(w == 404 && r.status == 400) {
+							ctx.violation(&format!("request next to sources whose ids contain router syntax is answered with status {} instead of {w}", r.status), &format!("GET {target}"), case);
+						} else if w == 200 && decode_body(&r).ok().as_deref() != Some(&content_of(if target.ends_with("1/2") { (3, 1, 2) } else { (3, 2, 5) })[..]) {
+							ctx.violation("served body differs from the stored tile (sources whose ids contain router syntax)", &format!("GET {target}"), case);
+						}
+					}
+				}
+			}
+		}
+	}
+	drop(server);
+	ctx.outcome_n(&format!("requests next to sources with ids {ids:?}"), n);
+	}
+}
+
 /// C05 over a remote container: for every position k of one upstream request (after start-up) that is answered
 /// with 503, the server - once the upstream is healthy again - must serve every stored tile.
 fn c05_remote(ctx: &Arc<Ctx>, work: &Path, rt: &tokio::runtime::Runtime) {
@@ -784,6 +856,7 @@ pub fn c05(ctx: Arc<Ctx>) {
 	ctx.sample(json!({"request": "GET /tiles/vpbf2/3/1/2 HTTP/1.1", "accept_encoding": "GZIP;q=0.5, Br;q=0.5", "sources": srcs.iter().map(|s| format!("{} ({}, {:?})", s.id, s.kind, s.format)).collect::<Vec<_>>()}));
 	ctx.extra("accept_encoding_values", json!(aes.len()));
 	c05_remote(&ctx, &work.0, &rt);
+	c05_odd_ids(&ctx, &work.0, &rt);
 	ctx.exhaustive(true);
 	let _ = (Tier::Quick, &srcs[0].tiles);
 	drop(work);
